@@ -277,6 +277,12 @@ def attach_cli():
 
     contracts.attach(p2a, "name_assemblies", on_call=on_call, label="C20.name_assemblies")
 
+    def on_write(args, kwargs):
+        out_asm = args[1] if len(args) > 1 else kwargs["out_asm"]
+        SNAP.setdefault("written", []).append((str(out_asm.name), [(s.rank, s.name) for s in out_asm.scaffolds]))
+
+    contracts.attach(p2a, "write_assembly", on_call=on_write, label="C20.write_assembly")
+
 
 def collapse(names):
     out = []
@@ -371,6 +377,37 @@ def check_cli_order(cr, ctx):
             return
     if nfiles:
         ctx.count("cli:order-checked")
+    if cr.get("also_stdout"):
+        # the same run without --output: the assemblies are printed (human-readable listing) in the same order
+        cli_runs.clear_outputs(cr)
+        SNAP["written"] = []
+        res = cli_runs.run_pretext_to_asm(cr, out_name=None, extra=["--no-write-log"])
+        if res["exit_code"] != 0 or not SNAP["written"]:
+            ctx.count("cli:stdout-run-error-exit")
+            return
+        # (without --output the assemblies go to the printer as they are: what is handed over is what is listed)
+        SNAP["sources"] = SNAP["written"]
+        blocks = [[n for _, n in rows] for _, rows in SNAP["sources"]]
+        for key, rows in SNAP["sources"]:
+            sk = [(r, Assembly.name_natural_key(N(n))) for r, n in rows]
+            if any(a > b for a, b in zip(sk, sk[1:])):
+                ctx.violation("assembly-handed-to-output-not-rank-then-name", f"assembly {key}: {rows}", case)
+                return
+        listing, cur, blank = [], None, True
+        for line in res["stdout"].splitlines():
+            if re.match(r"\S*Assembly: ", line):
+                cur = []
+                listing.append(cur)
+            elif cur is not None and blank and re.match(r"  \S", line) and not line.startswith("  #"):
+                cur.append(line.strip().split(" ")[0])
+            blank = not line.strip()
+        ctx.count("cli:stdout-listings", len(listing))
+        for got in listing:
+            if not decompose(collapse(got), blocks):
+                ctx.violation("printed-order-is-not-the-sorted-order", f"printed: {got}\nsorted assemblies: {SNAP['sources']}", {**case, "also_stdout": True})
+                return
+            if len({r for _, rows in SNAP["sources"] for r, n in rows if n in set(got)}) > 1:
+                ctx.count("cli:stdout-listing-with-several-ranks")
 
 
 def run_cli(shard, ctx):
@@ -394,6 +431,7 @@ def run_cli(shard, ctx):
             cr = cli_runs.text_case(rng, d, fmt="agp", tagged=True, two_hap=True, unprefixed=rng.random() < 0.5)
         else:
             cr = cli_runs.text_case(rng, d, fmt="tpf", tagged=True)
+        cr["also_stdout"] = i % 3 == 0
         try:
             check_cli_order(cr, ctx)
         finally:
@@ -439,7 +477,9 @@ def replay(case, ctx):
         from vf import cli_runs
 
         attach_cli()
-        check_cli_order(cli_runs.restore_case(case, Path(os.environ.get("VERIF_SHARD_SCRATCH", ".")) / "replay"), ctx)
+        cr_ = cli_runs.restore_case(case, Path(os.environ.get("VERIF_SHARD_SCRATCH", ".")) / "replay")
+        cr_["also_stdout"] = case.get("also_stdout")
+        check_cli_order(cr_, ctx)
         return
     check_set(ctx, case["names"], case.get("ranks"), perms=6, rng=rng_for(0, "replay"))
 
@@ -453,5 +493,6 @@ def plan(tier, seed):
 
 def gates(c, tier):
     need = {"sets:sorted": 2000, "law:numeric": 500, "law:numeric:names-with-hundreds-of-fields": 20, "law:roman": 500, "law:unloc": 500, "law:rename-resort": 200, "monitor_evals:name_natural_key": 50000,
-            "cli:order-checked": 100, "cli:chromosome-list-with-3-or-more-lines": 30, "cli:three-or-more-haplotypes": 30, "cli:all_haplotigs-with-several-ranks": 5, "cli:file-merged-from-several-assemblies": 5, "monitor_evals:name_assemblies": 100}
+            "cli:order-checked": 100, "cli:chromosome-list-with-3-or-more-lines": 30, "cli:three-or-more-haplotypes": 30, "cli:all_haplotigs-with-several-ranks": 5, "cli:file-merged-from-several-assemblies": 5, "monitor_evals:name_assemblies": 100,
+            "cli:stdout-listings": 100, "cli:stdout-listing-with-several-ranks": 30}
     return [f"{k}>={v} (got {c.get(k, 0)})" for k, v in need.items() if c.get(k, 0) < v]
